@@ -3,6 +3,7 @@ import FoxModel.Spec.Route
 import FoxModel.Spec.Store
 import FoxModel.Spec.Grammar
 import FoxModel.Model.Lookup
+import FoxModel.Model.Machine
 import FoxModel.Model.Tree
 import FoxModel.Model.WF
 /-
@@ -119,7 +120,10 @@ def stepBase (st : St) (op : String) : St :=
     ({ st with tree := st.tree.truncate methods, store := st.store.truncate methods }.emit "ok" "ok").tag
       (if methods.isEmpty then "trunc-all" else "trunc-some")
   | ["L", m, host, path] =>
-    let res := lookup st.tree.roots (ascii m) (fromHex! host) (fromHex! path)
+    -- the answer of the state machine (Model/Machine: registers, skipped-node stack, early return) is what is compared
+    -- with the implementation; it must also equal the enumerating walk the refinement theorems speak about
+    let res := Machine.lookup st.tree.roots (ascii m) (fromHex! host) (fromHex! path)
+    let st := if res == lookup st.tree.roots (ascii m) (fromHex! host) (fromHex! path) then st.tag "machine=walk" else st.tag "machine-vs-walk"
     let sp := Spec.route (st.store.routesOf (ascii m)) (fromHex! host) (fromHex! path)
     -- the routing specification speaks about paths without empty segments
     if hasEmptySeg (fromHex! path) then (st.emit (showResult res) "skip").tag "lk-emptyseg-unspecified" else
